@@ -4,6 +4,7 @@
   window or one of the two biases in the source breaks these proofs.
 -/
 import MocVerif.Lemmas.Cells
+import MocVerif.Props.C06
 import MocVerif.Model.Freq
 
 namespace Moc.C18
@@ -109,6 +110,91 @@ theorem tmoc_contains_exactly (w sh cap : Nat) (ts : List Nat) (x : Nat) :
   constructor
   · rintro ⟨t, ht, e⟩; exact ⟨t, ht, e.symm⟩
   · rintro ⟨t, ht, e⟩; exact ⟨t, ht, e.symm⟩
+
+/-- **T-MOC from microsecond ranges**: contains exactly the depth-`d` cells of the instants of the
+    (non-empty, half-open) ranges, for every index width — in particular the instants of the last,
+    partially covered, cell of the narrower type. -/
+theorem tmoc_ranges_contains_exactly (w sh cap : Nat) (rs : List Rng) (hr : ∀ r ∈ rs, r.1 < r.2) (x : Nat) :
+    mem x (fromMicrosecRanges w sh cap rs) ↔
+      ∃ r ∈ rs, ∃ t, r.1 ≤ t ∧ t < r.2 ∧ x / 2 ^ sh = (narrow (64 - w) t) >>> sh := by
+  unfold fromMicrosecRanges
+  have hne : ∀ q ∈ rs.map (fun r => (narrow (64 - w) r.1, narrowUp (64 - w) r.2)), q.1 < q.2 := by
+    intro q hq
+    obtain ⟨r, hr', rfl⟩ := List.mem_map.1 hq
+    have := (narrow_image (64 - w) r.1 r.2 (narrow (64 - w) r.1) (hr r hr')).2 ⟨r.1, Nat.le_refl _, hr r hr', rfl⟩
+    exact this.2
+  rw [(C06.rangeBuilder_sem sh cap _ hne).2]
+  simp only [Nat.shiftRight_eq_div_pow]
+  constructor
+  · rintro ⟨q, hq, y, h1, h2, h3⟩
+    obtain ⟨r, hr', rfl⟩ := List.mem_map.1 hq
+    obtain ⟨t, ht1, ht2, rfl⟩ := (narrow_image (64 - w) r.1 r.2 y (hr r hr')).1 ⟨h1, h2⟩
+    exact ⟨r, hr', t, ht1, ht2, h3⟩
+  · rintro ⟨r, hr', t, ht1, ht2, h3⟩
+    have := (narrow_image (64 - w) r.1 r.2 (narrow (64 - w) t) (hr r hr')).2 ⟨t, ht1, ht2, rfl⟩
+    exact ⟨_, List.mem_map.2 ⟨r, hr', rfl⟩, narrow (64 - w) t, this.1, this.2, h3⟩
+
+/-- **F-MOC from hertz ranges**: for accepted bounds `f1 < f2` (bit patterns `r.1 < r.2`) the MOC contains
+    exactly the depth-`d` cells containing a value of `[f1, f2)`, for every index width. -/
+theorem fmoc_ranges_contains_exactly (w sh cap : Nat) (rs : List Rng)
+    (hr : ∀ r ∈ rs, r.1 < r.2 ∧ freqValid r.1 = true ∧ freqValid r.2 = true) (x : Nat) :
+    mem x (fromFreqRangeBits w sh cap rs) ↔
+      ∃ r ∈ rs, ∃ b, r.1 ≤ b ∧ b < r.2 ∧ ∃ h, freq2hash w b = some h ∧ x / 2 ^ sh = h >>> sh := by
+  unfold fromFreqRangeBits
+  have hfm : rs.filterMap (freqRangeIdx w) =
+      rs.map fun r => (narrow (64 - w) (freqHash64 r.1), narrowUp (64 - w) (freqHash64 r.2)) := by
+    clear x
+    induction rs with
+    | nil => rfl
+    | cons r t ih =>
+      have h := hr r List.mem_cons_self
+      have e : freqRangeIdx w r = some (narrow (64 - w) (freqHash64 r.1), narrowUp (64 - w) (freqHash64 r.2)) := by
+        simp [freqRangeIdx, freq2hash, h.2.1, h.2.2]
+      rw [List.filterMap_cons, e, List.map_cons, ih (fun q hq => hr q (List.mem_cons_of_mem _ hq))]
+  rw [hfm]
+  have hne : ∀ q ∈ rs.map (fun r => (narrow (64 - w) (freqHash64 r.1), narrowUp (64 - w) (freqHash64 r.2))), q.1 < q.2 := by
+    intro q hq
+    obtain ⟨r, hr', rfl⟩ := List.mem_map.1 hq
+    have h := hr r hr'
+    have hlt := freq_strict_mono r.1 r.2 h.2.1 h.2.2 h.1
+    exact ((narrow_image (64 - w) _ _ (narrow (64 - w) (freqHash64 r.1)) hlt).2 ⟨_, Nat.le_refl _, hlt, rfl⟩).2
+  rw [(C06.rangeBuilder_sem sh cap _ hne).2]
+  simp only [Nat.shiftRight_eq_div_pow]
+  -- validity is convex: every bit pattern between two accepted ones is accepted
+  have hconv : ∀ r ∈ rs, ∀ b, r.1 ≤ b → b < r.2 → freqValid b = true := by
+    intro r hr' b h1 h2
+    have h := hr r hr'
+    have v1 := h.2.1; have v2 := h.2.2
+    unfold freqValid at *
+    simp only [Bool.and_eq_true, decide_eq_true_eq] at *
+    omega
+  constructor
+  · rintro ⟨q, hq, y, h1, h2, h3⟩
+    obtain ⟨r, hr', rfl⟩ := List.mem_map.1 hq
+    have h := hr r hr'
+    have hlt := freq_strict_mono r.1 r.2 h.2.1 h.2.2 h.1
+    obtain ⟨t, ht1, ht2, rfl⟩ := (narrow_image (64 - w) _ _ y hlt).1 ⟨h1, h2⟩
+    -- `t` is the index of the bit pattern `t + bias·2^52`
+    have e1 := freqHash64_eq r.1 h.2.1
+    have e2 := freqHash64_eq r.2 h.2.2
+    have hb1 : r.1 ≤ t + Params.freqBiasEnc * two52 := by omega
+    have hb2 : t + Params.freqBiasEnc * two52 < r.2 := by omega
+    have hv := hconv r hr' _ hb1 hb2
+    have e3 := freqHash64_eq _ hv
+    have : freqHash64 (t + Params.freqBiasEnc * two52) = t := by omega
+    refine ⟨r, hr', t + Params.freqBiasEnc * two52, hb1, hb2, narrow (64 - w) t, ?_, h3⟩
+    simp [freq2hash, hv, this]
+  · rintro ⟨r, hr', b, hb1, hb2, hh, hfh, h3⟩
+    have h := hr r hr'
+    have hv := hconv r hr' b hb1 hb2
+    have hlt := freq_strict_mono r.1 r.2 h.2.1 h.2.2 h.1
+    simp only [freq2hash, hv, if_true, Option.some.injEq] at hfh
+    subst hfh
+    have e1 := freqHash64_eq r.1 h.2.1
+    have e2 := freqHash64_eq r.2 h.2.2
+    have e3 := freqHash64_eq b hv
+    have := (narrow_image (64 - w) _ _ (narrow (64 - w) (freqHash64 b)) hlt).2 ⟨freqHash64 b, by omega, by omega, rfl⟩
+    exact ⟨_, List.mem_map.2 ⟨r, hr', rfl⟩, _, this.1, this.2, h3⟩
 
 /-- A wider index type covers the same physical interval: widening an index and dropping the added
     bits gives the index back (hence the same microsecond / hash values are covered). -/
